@@ -253,5 +253,18 @@ def priority_scheduler(s, results: List[ExecutionResult],
         for sus in to_suspend:
             susobj = Suspend(sus.container_id, sus.pool_id)
             suspensions.append(susobj)
+            # remember the container's unfinished work now: a suspension that
+            # takes a single tick is over before the next round, so the
+            # container never shows up in suspending_containers
+            ops = [op for op in sus.operators if op.state() != OperatorState.COMPLETED]
+            retry_stats = RetryStats(
+                old_ram=sus.assignment.ram,
+                old_cpu=sus.assignment.cpu,
+                error=sus.error,
+                container_id=sus.container_id,
+                pool_id=sus.pool_id,
+            )
+            s.suspending[sus.container_id] = WaitingQueueJob(priority=sus.priority, p=ops[0].pipeline,
+                                                             ops=ops, retry_stats=retry_stats)
 
     return suspensions, new_assignments
